@@ -321,12 +321,22 @@ def main():
             ntainted += 1
         else:
             unexplained.append((tr, kv, line))
+    def shrunk(path):
+        """delta-debug the replay to a smaller history on which the same monitor clause fires"""
+        if os.environ.get("VERIF_NO_SHRINK"): return path
+        try:
+            subprocess.run([sys.executable, os.path.join(VERIF, "scripts/replay.py"), path, "--shrink", "60" if tier == "quick" else "300"],
+                           stdout=subprocess.DEVNULL, stderr=subprocess.DEVNULL, timeout=1200)
+        except Exception:
+            return path
+        mp = re.sub(r"\.json$", "", path) + ".min.json"
+        return mp if os.path.exists(mp) else path
     exit_code = 0
     for kid, (k, line) in reproduced.items():
         print("KNOWN-FINDING: " + k["_line"][len("finding:"):].strip())
     if unexplained:
         tr, kv, line = unexplained[0]
-        path = write_replay(f"{prop}-{kv.get('hist')}-{kv.get('i')}.json", tr, kv, {"kind": "monitor", "monitor": line, "count": len(unexplained)})
+        path = shrunk(write_replay(f"{prop}-{kv.get('hist')}-{kv.get('i')}.json", tr, kv, {"kind": "monitor", "monitor": line, "count": len(unexplained)}))
         print(f"VIOLATION property={prop} replay={path}")
         exit_code = 1
     elif mism or broken:
@@ -362,6 +372,7 @@ def main():
             path = write_replay(f"{prop}-{kv2.get('hist')}-{kv2.get('i')}.json", tr2, kv2,
                                 {"kind": "monitor-after-broken-correspondence", "monitor": line2, "broken": broken[:10],
                                  "mismatches": [l for _, _, l in mism[:10]], "search": search})
+            path = shrunk(path)
             print(f"VIOLATION property={prop} replay={path}")
             exit_code = 1
         what = {"kind": "broken", "broken": broken[:10], "mismatches": [l for _, _, l in mism[:10]], "search_for_failing_input": search}
